@@ -640,6 +640,8 @@ def engb():
         add("C20", f"b_ctor_{w}", f"engb::b_ctor({w})", 1, "native", kind="panic")
     for op in range(4):
         add("C11", f"b_state_{op}", f"engb::b_state({op})", 1, "native", kind="pass")
+    for meth in range(5):
+        add("C10", f"b_flatten_{meth}", f"engb::b_flatten({meth})", 1, "native", kind="pass")
     for recv in (0, 1):
         add("C13", f"b_swap_rows_{recv}", f"engb::b_swap_rows({recv})", 1, "native", kind="panic")
     for ty in range(4):
